@@ -22,6 +22,18 @@ def build():
         h.root('tdq_' + fn, g + '(e: %s, c: %s, u: %s) -> Decomposed<Vector3<S>, Quaternion<S>>' % (P, P, V), '<Decomposed<Vector3<S>, Quaternion<S>> as Transform<Point3<S>>>::%s(e, c, u)' % fn, ('viewdecq', hand, 'code'))
         dirx = 'e - c' if hand == 'rh' else 'c - e'
         h.root('ref_tdq_' + fn, g + '(e: %s, c: %s, u: %s) -> Quaternion<S>' % (P, P, V), 'Quaternion::from(Matrix3::look_to_lh(%s, u))' % dirx, ('viewdecq', hand, 'ref'))
+    # deprecated aliases and the generic Transform::look_at (documented handedness: Matrix4 -> rh, Matrix3 / Decomposed -> lh)
+    h.root('m4_look_at_deprecated', g + '(e: %s, c: %s, u: %s) -> Matrix4<S>' % (P, P, V), '{ #[allow(deprecated)] Matrix4::look_at(e, c, u) }', ('view4', 'rh', True))
+    h.root('m4_look_at_dir_deprecated', g + '(e: %s, d: %s, u: %s) -> Matrix4<S>' % (P, V, V), '{ #[allow(deprecated)] Matrix4::look_at_dir(e, d, u) }', ('view4', 'rh', False))
+    h.root('tm4_look_at_deprecated', g + '(e: %s, c: %s, u: %s) -> Matrix4<S>' % (P, P, V), '{ #[allow(deprecated)] <Matrix4<S> as Transform<Point3<S>>>::look_at(e, c, u) }', ('view4', 'rh', True))
+    h.root('tm3_look_at_deprecated', g + '(e: %s, c: %s, u: %s) -> Matrix3<S>' % (P, P, V), '{ #[allow(deprecated)] <Matrix3<S> as Transform<Point3<S>>>::look_at(e, c, u) }', ('view3', 'lh', True))
+    h.root('m3_look_at_deprecated', g + '(d: %s, u: %s) -> Matrix3<S>' % (V, V), '{ #[allow(deprecated)] Matrix3::look_at(d, u) }', ('view3', 'lh', False))
+    h.root('tdb_look_at_deprecated', g + '(e: %s, c: %s, u: %s) -> Decomposed<Vector3<S>, Basis3<S>>' % (P, P, V), '{ #[allow(deprecated)] <Decomposed<Vector3<S>, Basis3<S>> as Transform<Point3<S>>>::look_at(e, c, u) }', ('viewdec', 'lh'))
+    # 2-D transforms: Matrix3 as Transform<Point2> and Decomposed with Basis2
+    P2, V2_ = 'Point2<S>', 'Vector2<S>'
+    for fn, flip in (('look_at_lh', False), ('look_at_rh', True)):
+        h.root('tm3_2d_' + fn, g + '(e: %s, c: %s, u: %s) -> Matrix3<S>' % (P2, P2, V2_), '<Matrix3<S> as Transform<Point2<S>>>::%s(e, c, u)' % fn, ('view2t', flip, 'm3'))
+        h.root('tdb2_' + fn, g + '(e: %s, c: %s, u: %s) -> Decomposed<Vector2<S>, Basis2<S>>' % (P2, P2, V2_), '<Decomposed<Vector2<S>, Basis2<S>> as Transform<Point2<S>>>::%s(e, c, u)' % fn, ('view2t', flip, 'dec'))
     # 3x3: args (dir, up)
     h.root('m3_look_to_lh', g + '(d: %s, u: %s) -> Matrix3<S>' % (V, V), 'Matrix3::look_to_lh(d, u)', ('view3', 'lh', False))
     h.root('m3_look_to_rh', g + '(d: %s, u: %s) -> Matrix3<S>' % (V, V), 'Matrix3::look_to_rh(d, u)', ('view3', 'rh', False))
@@ -275,6 +287,61 @@ def check_view2(run, S, name, spec, kw):
         run.ob('%s:%s:orientations' % (PROP, name), ok, rule='K4', expected='the two flip values give the two orientations (det = +1 / -1)', found=[A.show(x.norm()) for x in dets], where=where)
 
 
+def check_view2t(run, S, name, spec, kw):
+    """2-D look_at through the Transform trait: rotation part has orthonormal columns, the first = d/|d| with
+    d = center - eye (lh) or eye - center (rh), the second on the side of up; Decomposed: disp = R(origin - eye)."""
+    flip, what = spec[1], spec[2]
+    r = run.use_root(S, name)
+    if r is None:
+        run.ob('%s:%s:present' % (PROP, name), False, rule='root-present', expected='root', found='missing')
+        return
+    where = r.get('span')
+    cv = Conv(S)
+    eye, cen, up = sv('a0', 2), sv('a1', 2), sv('a2', 2)
+    d = A.vsub(eye, cen) if flip else A.vsub(cen, eye)
+    sigma = A.sqrt(A.dot(d, d))
+    ls = ret_leaves(r['out'])
+    if len(ls) != 2 or any(l['k'] != 'ret' for g_, l in ls):
+        run.ob('%s:%s:shape' % (PROP, name), False, rule='K5', expected='two Return leaves (the two orientations)', found=[l['k'] for g_, l in ls], where=where)
+        return
+    for li, (guards, leaf) in enumerate(ls):
+        v = cv.val(leaf['v'])
+        key = '%s:%s:leaf%d' % (PROP, name, li)
+        if what == 'm3':
+            c1, c2 = v[0][:2], v[1][:2]
+            rest = [v[0][2], v[1][2], v[2][0], v[2][1]]
+            okaff = all(A.eq(x, ZERO) for x in rest) and A.eq(v[2][2], ONE)
+            run.ob(key + ':embedding', okaff, rule='K1', expected='the 2x2 rotation embedded in the 3x3 identity', found=[A.show(x) for x in rest], where=where)
+            disp = None
+        else:
+            scale, rot, disp = v
+            M = unbasis(rot)
+            c1, c2 = M[0], M[1]
+            run.ob(key + ':scale', A.eq(scale, ONE), rule='K3', expected='scale = 1', found=scale, where=where)
+        ok = A.eq(A.dot(c1, c1), ONE) and A.eq(A.dot(c2, c2), ONE) and A.eq(A.dot(c1, c2), ZERO)
+        run.ob(key + ':orthonormal', ok, rule='K4', expected='orthonormal columns', found='holds' if ok else 'fails', where=where)
+        ok = all(A.eq(x * sigma, y) for x, y in zip(c1, d))
+        run.ob(key + ':first', ok, rule='K4', expected='first column = d/|d| with d = %s' % ('eye - center' if flip else 'center - eye'), found=[A.show(x.norm(), 4) for x in c1], where=where)
+        if len(guards) == 1 and guards[0][0] == 'ite':
+            g_ = parse_guard(S, cv, guards[0][1])
+            want = guards[0][2] != g_['neg']
+            if g_['kind'] in ('ge', 'gt', 'le', 'lt'):
+                G = g_['a'] - g_['b']
+                if g_['kind'] in ('le', 'lt'):
+                    G = -G
+                N = (A.dot(c2, up) * sigma).norm()
+                okp = 1 if A.eq(N, G) else (-1 if A.eq(N, -G) else None)
+                run.ob(key + ':side', (okp == 1 and want) or (okp == -1 and not want), rule='K4 guard-refined sign', expected='second column . up >= 0 on this branch', found='N = %s' % A.show(N, 6), where=where)
+            else:
+                run.ob(key + ':side', False, rule='K4 guard-refined sign', expected='an order comparison', found=g_['text'][:100], where=where)
+        else:
+            run.ob(key + ':side', False, rule='K4 guard-refined sign', expected='one comparison decides the orientation', found=str(guards)[:100], where=where)
+        if disp is not None:
+            exp = A.matvec([c1, c2], [-x for x in eye])
+            ok = all(A.eq(x, y) for x, y in zip(disp, exp))
+            run.ob(key + ':disp', ok, rule='K3', expected='disp = rot.rotate_vector(origin - eye)', found='holds' if ok else 'fails', where=where)
+
+
 def run(tier):
     run = Run(PROP, tier, 'proof')
     specs.selfcheck()
@@ -282,7 +349,7 @@ def run(tier):
     h = build()
     S, inv, meta = facts.extract(PROP, h.src())
     report_dropped(run, meta)
-    run_specs(run, S, h, custom={'view4': check_view4, 'view3': check_view3, 'viewdec': check_viewdec, 'viewdecq': check_viewdecq, 'qlook': check_qlook, 'view2': check_view2})
+    run_specs(run, S, h, custom={'view2t': check_view2t, 'view4': check_view4, 'view3': check_view3, 'viewdec': check_viewdec, 'viewdecq': check_viewdecq, 'qlook': check_qlook, 'view2': check_view2})
     run.floor('roots', len(run.roots), len(h.specs))
     run.assumed.update(A.CTX.assumed)
     return run.finish(
